@@ -6,6 +6,7 @@ package check
 import (
 	"context"
 
+	"github.com/gofrs/uuid"
 	"github.com/pkg/errors"
 
 	"github.com/ory/keto/internal/check/checkgroup"
@@ -15,6 +16,19 @@ import (
 	"github.com/ory/keto/internal/x/graph"
 	"github.com/ory/keto/internal/x/verifhook"
 	"github.com/ory/keto/ketoapi"
+)
+
+type (
+	computedSubjectSetPathKey struct{}
+
+	// computedSubjectSetPath is the chain of computed subject sets that are
+	// currently being evaluated (innermost first).
+	computedSubjectSetPath struct {
+		parent    *computedSubjectSetPath
+		namespace string
+		object    uuid.UUID
+		relation  string
+	}
 )
 
 func checkNotImplemented(_ context.Context, resultCh chan<- checkgroup.Result) {
@@ -262,6 +276,24 @@ func (e *Engine) checkComputedSubjectSet(
 		WithField("request", r.String()).
 		WithField("computed subjectSet relation", subjectSet.Relation).
 		Trace("check computed subjectSet")
+
+	// A computed subject set that refers (transitively) to itself on the same
+	// object, e.g. `a: (ctx) => this.related.x.includes(ctx.subject) &&
+	// this.permits.a(ctx)`, does not consume any depth, so evaluating it again
+	// would recurse forever. The inner occurrence cannot contribute any members
+	// that the outer one does not find (least fixpoint), so it is "not a member".
+	current := computedSubjectSetPath{
+		namespace: r.Namespace,
+		object:    r.Object,
+		relation:  subjectSet.Relation,
+	}
+	for p, _ := ctx.Value(computedSubjectSetPathKey{}).(*computedSubjectSetPath); p != nil; p = p.parent {
+		if p.namespace == current.namespace && p.object == current.object && p.relation == current.relation {
+			return checkgroup.NotMemberFunc
+		}
+	}
+	current.parent, _ = ctx.Value(computedSubjectSetPathKey{}).(*computedSubjectSetPath)
+	ctx = context.WithValue(ctx, computedSubjectSetPathKey{}, &current)
 
 	return e.checkIsAllowed(ctx, &relationTuple{
 		Namespace: r.Namespace,
